@@ -154,8 +154,21 @@ structure Fam where
   typ : MType
 deriving Repr, DecidableEq
 
-/-- returns (new cache, drop, help) -/
+/-- validateMetrics (exporter.go:586-622, after de0451a): returns (new cache, drop, help) where help is the description
+the series must carry: the new one when the family is new or the description is equal, the first registered one on a
+description conflict (it may be empty); "" when dropped. Collect assigns it unconditionally (`m.Description = help`). -/
 def validate (fams : List Fam) (name desc : Bytes) (typ : MType) : List Fam × Bool × Bytes :=
+  match fams.find? (fun f => f.name == name) with
+  | none => (fams ++ [⟨name, desc, typ⟩], false, desc)
+  | some emf =>
+    if emf.typ != typ then (fams, true, [])
+    else if emf.help != desc then (fams, false, emf.help)
+    else (fams, false, desc)
+
+/-! #### the repaired defect F34, kept for documentation: validateMetrics and its call site before de0451a -/
+
+/-- validateMetrics before de0451a: help "" meant "no conflict" -/
+def validateMetricsOld (fams : List Fam) (name desc : Bytes) (typ : MType) : List Fam × Bool × Bytes :=
   match fams.find? (fun f => f.name == name) with
   | none => (fams ++ [⟨name, desc, typ⟩], false, [])
   | some emf =>
@@ -163,8 +176,8 @@ def validate (fams : List Fam) (name desc : Bytes) (typ : MType) : List Fam × B
     else if emf.help != desc then (fams, false, emf.help)
     else (fams, false, [])
 
-/-- the description used for the series after `if help != "" { m.Description = help }` -/
-def effectiveHelp (desc help : Bytes) : Bytes := if help != [] then help else desc
+/-- the old call site: `if help != "" { m.Description = help }` -/
+def effectiveHelpOld (desc help : Bytes) : Bytes := if help != [] then help else desc
 
 /-! ### explicit-bucket histogram -/
 
@@ -423,7 +436,7 @@ def collectInsts (esc : Bytes → Bytes) (cfg : Cfg) (extra : List KV) :
       let (fams', drop, help) := validate fams name i.desc typ
       if drop then collectInsts esc cfg extra fams' rest
       else
-        let h := effectiveHelp i.desc help
+        let h := help
         let out := i.points.filterMap (emitPoint esc cfg.legacy name h typ extra)
         let (f2, o2) := collectInsts esc cfg extra fams' rest
         (f2, out ++ o2)
@@ -451,6 +464,11 @@ def collectScopes (esc : Bytes → Bytes) (sc : Scenario) (resKV : List KV) : Li
 /-- does some getName call of this scrape panic? -/
 def collectPanics (esc : Bytes → Bytes) (sc : Scenario) : Bool :=
   sc.scopes.any fun s => s.insts.any fun i => (getName esc sc.cfg i.name i.unit i.dtype.mtype).isNone
+
+/-- Collect on an exporter that is not (yet) registered with a MeterProvider: reader.Collect returns
+ErrReaderNotRegistered, the error is handled and Collect returns before anything is initialised or sent (exporter.go:158-167);
+in particular no target_info is created (and cached) from a resource that is not there yet. -/
+def collectNotRegistered : List Emitted := []
 
 /-- Collect: everything sent on the channel, in order -/
 def collect (esc : Bytes → Bytes) (sc : Scenario) : List Emitted :=
